@@ -1,11 +1,12 @@
 (* Why the ownership theorems of XOwnProofs.v are stated over runs whose POk labels make
-   progress ([preach]): the model's parse1/retr1 accept labels that consume no bits (a POk
-   whose position equals the parser's, a retriever that ends where it began) - labels the
-   unlocked computations can never produce, parse() consumes the 48-bit block magic and
-   the 32-bit CRC before it returns OK.  With such labels two "blocks" get the same base,
-   the buffers of one are taken for the other's, and a head is left in order_q that nothing
-   owns: can_terminate() holds although order_q is not empty.  This file compiles for every
-   source (the run does not depend on any regenerated boolean it could trip over). *)
+   progress ([preach]: a confirmed block starts at least 32 bits after the one confirmed before):
+   the model's parse1/retr1 accept labels that consume no bits (a POk whose position equals the
+   parser's, a retriever that ends where it began) - labels the unlocked computations can never
+   produce, parse() consumes the 48-bit block magic and the 32-bit CRC of a header before it returns
+   OK.  With such labels two "blocks" get the same base, the buffers of one are taken for the
+   other's, and a head is left in order_q that nothing owns: can_terminate() holds although order_q
+   is not empty.  This file compiles for every source (the run does not depend on any regenerated
+   boolean it could trip over). *)
 From Coq Require Import List NArith Bool.
 From LBZ Require Import Gen.Consts SchedX.XState Gen.SchedXTab SchedX.XSet SchedX.XModel SchedX.XInvDefs.
 Import ListNotations.
